@@ -48,6 +48,9 @@ CHECKS = {
  "C12": ("bounded symbolic execution of the Query methods on a symbolic match sequence vs list slicing, counts concretised from a pool through the solver's path search",
          "Chains of 1-3 operations (limit/head/first, skip/drop, tail/last, take, tee, first_one/one, last_one) ending in each view are decided on $[*] over a symbolic list of length <= 4 with every count from -1 to length+2, including the remainder after take, the copies after tee and ValueError on negative counts.",
          "counts are concretised before reaching itertools/deque (C): exhaustive over the pool, nothing outside it"),
+ "C19": ("bounded symbolic execution of Query.select/_patch_obj/_fix_sparse_arrays on symbolic documents vs the projection definitions",
+         "For 40 (match query, relative queries) cases under the three styles on spines with symbolic leaves (0/false/null included), lengths and integer-looking names: flat = selected values in order; relative/root = rank-compacted located values with no other leaves; nothing for non-container matches or empty selections; document unchanged.",
+         "disjoint, per-array ascending selections; selected nodes located by the library's own finditer (decided under C01/C03)"),
 }
 NA = {
  "C18": "process-level I/O (argparse FileType, stdin/stdout, exit status, stderr text): CrossHair's audit wall blocks file access, file contents pass through C json, and what remains is a finite option table whose exploration would be enumeration of concrete runs - no role for a solver",
